@@ -1,5 +1,13 @@
 package main
 
+import (
+	"net/textproto"
+
+	"verif/engine/sym"
+
+	"golang.org/x/tools/go/ssa"
+)
+
 func init() {
 	register(&Spec{
 		ID:       "C20",
@@ -18,17 +26,43 @@ func init() {
 					jobs = append(jobs, Job{Pkg: "proxy", Func: "verifC20Index", Args: []int64{int64(n), int64(a)}})
 				}
 			}
+			maxF := 7
+			if tier == "thorough" {
+				maxF = 10
+			}
+			for n := 0; n <= maxF; n++ {
+				for a := 0; a < 3; a++ {
+					jobs = append(jobs, Job{Pkg: "proxy", Func: "verifC20Filter", Args: []int64{int64(n), int64(a)}})
+				}
+			}
 			for _, k := range ks {
 				jobs = append(jobs, Job{Pkg: "proxy", Func: "verifC20Window", Args: []int64{k}})
 			}
 			return jobs
 		},
-		MustReach: []string{"c20.found", "c20.none", "c20.window"},
+		Setup: func(e *sym.Engine, st *sym.State, l *sym.Loaded) {
+			setupNetip(e, st, l)
+			px := l.Pkgs[modPath+"/proxy"]
+			e.Redirects["github.com/AdguardTeam/gomitmproxy/proxyutil.ReadDecompressedBody"] = px.Func("verifReadDecompressedBody")
+			e.Redirects["github.com/AdguardTeam/gomitmproxy/proxyutil.DecodeLatin1"] = px.Func("verifDecodeLatin1")
+			e.Redirects["github.com/AdguardTeam/gomitmproxy/proxyutil.EncodeLatin1"] = px.Func("verifEncodeLatin1")
+			e.Redirects["(*"+modPath+"/proxy.Server).buildInjectionCode"] = px.Func("verifBuildInjection")
+			e.Intrinsics["net/http.Header.Del"] = func(e *sym.Engine, st *sym.State, c ssa.CallInstruction, a []sym.Value) []*sym.State {
+				k, ok := sym.StrConcrete(a[1].(sym.StrV))
+				if !ok {
+					panic("Header.Del with a symbolic key")
+				}
+				e.MapDelete(st, a[0].(sym.MapV), e.ConcreteStr(textproto.CanonicalMIMEHeaderKey(k)))
+				return nil
+			}
+		},
+		ContractStubs: "filterHTML environment: decompression and Latin-1 coding are identities on ASCII, the template yields a fixed tag",
+		MustReach: []string{"c20.found", "c20.none", "c20.window", "c20.injected", "c20.unchanged"},
 		Bounds: map[string]string{
-			"quick":    "findBodyInjectionIndex/isMatchFound on bodies of 0..9 symbolic bytes over three alphabets (the letters of each marker in both cases, '<', '/', a filler) and on bodies of 16384-k filler bytes followed by 9 symbolic bytes for k in {-1,0,1,3,6,8}; the splice arithmetic on the found index",
+			"quick":    "findBodyInjectionIndex/isMatchFound on bodies of 0..9 symbolic bytes over three alphabets (the letters of each marker in both cases, '<', '/', a filler) and on bodies of 16384-k filler bytes followed by 9 symbolic bytes for k in {-1,0,1,3,6,8}; filterHTML (environment stubbed) on bodies of 0..7 symbolic ASCII bytes: output, Content-Length, Content-Encoding, original body closed",
 			"thorough": "bodies up to 13 symbolic bytes; every k in -2..9",
 		},
-		Outside:     []string{"filterHTML's I/O: decompression, the Latin-1 round trip (bytes >= 0x80 become two bytes in the decoded string, so the window counts decoded bytes), header updates, Content-Length, the content-script template: NOT modelled or claimed in this round", "bodies other than the two shapes"},
+		Outside:     []string{"gzip decompression, the x/text Latin-1 coding (bytes >= 0x80 become two bytes in the decoded string, so the window counts decoded bytes) and the content-script template: replaced by contracts (identity on ASCII bodies, fixed tag); bodies with bytes >= 0x80 are not covered", "bodies other than the two shapes"},
 		Assumptions: []string{"strings.EqualFold on ASCII"},
 		Rule:        "body bytes symbolic; one state per feasible path of the scan",
 	})
